@@ -238,6 +238,16 @@ def check_parse_pipeline(ctx, rid):
             sp_ = init.params[1] if len(init.params) > 1 else None
             dflt = init.node.args.defaults and isinstance(init.node.args.defaults[-1], ast.Constant) and init.node.args.defaults[-1].value is False
             ok = is_name(v.test, sp_) and bool(dflt) and isinstance(v.orelse, ast.List) and not v.orelse.elts and isinstance(v.body, ast.List)
+        if not st:
+            # the same choice written as if/else (also the normal form of a conditional expression, normalize.py N2)
+            sp_ = init.params[1] if len(init.params) > 1 else None
+            dflt = init.node.args.defaults and isinstance(init.node.args.defaults[-1], ast.Constant) and init.node.args.defaults[-1].value is False
+            for s_ in init.node.body:
+                if isinstance(s_, ast.If) and is_name(s_.test, sp_) and len(s_.body) == 1 and len(s_.orelse) == 1:
+                    a_, b_ = s_.body[0], s_.orelse[0]
+                    if all(isinstance(x, ast.Assign) and is_attr(x.targets[0], attr, 'self') for x in (a_, b_)):
+                        st = [b_]
+                        ok = bool(dflt) and isinstance(b_.value, ast.List) and not b_.value.elts and isinstance(a_.value, ast.List)
         ctx.ob(rid, f'FilterStack.__init__:{attr}', _loc(init, init.node), f'self.{attr} starts as a fresh empty list', ok,
                f'`{src(st[0]) if st else "missing"}`')
     st = [s for s in init.node.body if isinstance(s, ast.Assign) and is_attr(s.targets[0], '_grouping', 'self')]
